@@ -365,7 +365,7 @@ def rule_wdisp(rm, em):
         region = b.reachable_from(entry) if entry else set(b.live_blocks)
         lookups = [c for c in lookups if c.bb in region]
         globals_ = [c for c in b.live_calls if any(t in rm.reach_reg_lock for t in ([c.ruid] if c.ruid else []))
-                    and c.ruid not in rm.must_init and c.ruid != em.exec.id and c.bb in region]
+                    and c.ruid not in rm.must_init and c.ruid not in em.eval_ids and c.bb in region]
         if len(lookups) != 1:
             obs.append(bad('WDISP', key, 'expected exactly one context-function lookup in %s, found %d' % (b.name, len(lookups)), b.where(), body=b.name))
             continue
@@ -447,7 +447,7 @@ def rule_receivers(rm, em):
                     continue
                 if o.kind == 'callres' and hm_method(o.data) in ('get', 'get_key_value') and reg_class_of_call(o.data) in ('REGISTRY', 'CONTEXT'):
                     continue
-                if o.kind == 'param' and b.id != em.exec.id and _param_from_lookup(rm, em, b, o):
+                if o.kind == 'param' and b.id not in em.eval_ids and _param_from_lookup(rm, em, b, o):
                     continue
                 bad_o.append(repr(o))
             if bad_o:
@@ -574,6 +574,10 @@ def _same_decision(b, c1, c2):
     return False
 
 
+def _is_str_ty(ty):
+    return bool(re.match(r"^&('\w+ )?(str|std::string::String)$", ty))
+
+
 def rule_reg_record(rm):
     """one decision, one lookup: a body that needs several fields of the record registered under one name (an infix
     operator's type *and* its handler, its precedence *and* its associativity) reads them in ONE lock acquisition.
@@ -587,7 +591,7 @@ def rule_reg_record(rm):
     keyed = {}       # body id -> parameter index of the key
     for g in prog.bodies:
         if g.id in rm.reg_lockers and not g.is_closure:
-            ks = [k for k in range(1, g.arg_count + 1) if 'str' in g.locals[k]['ty'] and g.locals[k]['ty'].startswith('&')]
+            ks = [k for k in range(1, g.arg_count + 1) if _is_str_ty(g.locals[k]['ty'])]
             if len(ks) == 1:
                 keyed[g.id] = ks[0]
     changed = True
@@ -599,7 +603,7 @@ def rule_reg_record(rm):
             for c in g.live_calls:
                 if c.ruid in keyed and keyed[c.ruid] - 1 < len(c.args):
                     o = single_origin(trace_operand(g, c.args[keyed[c.ruid] - 1], through_calls=THROUGH))
-                    if o is not None and o.kind == 'param' and not o.proj and 'str' in g.locals[o.data]['ty']:
+                    if o is not None and o.kind == 'param' and not o.proj and _is_str_ty(g.locals[o.data]['ty']):
                         keyed[g.id] = o.data
                         changed = True
                         break
